@@ -12,7 +12,10 @@ NONTRIVIAL_RULE = ('rule cases: the call returned (all 512 binary blocks, plain 
 EXHAUSTIVE = {'quick': True, 'thorough': True}
 NOTES = ['the 512 binary neighbourhoods are enumerated completely, in both forms, in both tiers',
          'every placement (a, b) in [0,R) x [0,C) of the glider on 6x6, 7x7, 8x8 (quick) / all R x C in 5..8 (thorough)',
-         'the model side is the memoize=False engine for all three memoize modes: the result must not depend on the mode']
+         'the model side is the memoize=False engine for all three memoize modes: the result must not depend on the mode',
+         'sequence cases: 2-4 evolve2d calls in one process with the same cpl.game_of_life_rule object, mixing '
+         "neighbourhood='von Neumann' / 'Moore' and the memoize modes; every Moore call is compared (model and np.roll "
+         'oracle), the von Neumann calls are modelled (masked sum) but not compared: the property does not speak about them']
 ASSUMPTIONS = ['grids hold 0/1 integers (the property is stated for binary neighbourhoods)',
                'r = 1, Moore neighbourhood (the default evolve2d arguments used with game_of_life_rule)',
                'a MaskedArray neighbourhood is exercised with an all-False mask only']
@@ -96,11 +99,53 @@ def generate(rng, tier):
             for b in range(C):
                 yield {'kind': 'pattern/blinker', 'op': 'pattern', 'pat': 'blinker', 'R': R, 'C': C, 'a': a, 'b': b,
                        'T': rng.choice([3, 3, 4, 5]), 'memo': (a + 2 * b) % 3}
-    # 6. the model's translation is np.roll
+    # 6. call sequences in one process, one rule object (state kept between calls must not leak)
+    for c in _sequences(rng, 600 if thorough else 150):
+        yield c
+    # 7. the model's translation is np.roll
     for i in range(400 if thorough else 60):
         R, C = rng.randint(1, 9), rng.randint(1, 9)
         yield {'kind': 'roll', 'op': 'roll', 'g': _rand_grid(rng, R, C),
                'da': rng.randint(-2 * R, 2 * R), 'db': rng.randint(-2 * C, 2 * C)}
+
+
+def _grid04(rng, R, C):
+    return [[1 if rng.random() < 0.4 else 0 for _ in range(C)] for _ in range(R)]
+
+
+def _sequences(rng, n):
+    """2-4 evolve2d calls back to back with the same rule object; mixed neighbourhood types / memoize modes"""
+    for i in range(n):
+        R, C = rng.randint(6, 9), rng.randint(6, 9)
+        g = _grid04(rng, R, C)
+        bucket = i % 5
+        if bucket == 0:      # the same grid, von Neumann first, then Moore, same memoize mode (each mode in turn)
+            m = (i // 5) % 3
+            calls = [{'nb': 'V', 'hist': [g], 'T': rng.randint(2, 4), 'memo': m},
+                     {'nb': 'M', 'hist': [g], 'T': rng.randint(2, 4), 'memo': m}]
+            kind = 'sequence/vn-then-moore-same-grid'
+        elif bucket == 1:    # Moore, von Neumann, Moore on one grid; modes drawn independently
+            calls = [{'nb': nb, 'hist': [g], 'T': rng.randint(2, 4), 'memo': rng.randrange(3)} for nb in 'MVM']
+            kind = 'sequence/moore-vn-moore-same-grid'
+        elif bucket == 2:    # different grids of one shape
+            calls = [{'nb': rng.choice('MV'), 'hist': [_grid04(rng, R, C)], 'T': rng.randint(2, 4),
+                      'memo': rng.randrange(3)} for _ in range(rng.randint(2, 4))]
+            calls[-1]['nb'] = 'M'
+            kind = 'sequence/same-shape'
+        elif bucket == 3:    # different shapes
+            calls = []
+            for _ in range(rng.randint(2, 4)):
+                R2, C2 = rng.randint(6, 9), rng.randint(6, 9)
+                calls.append({'nb': rng.choice('MV'), 'hist': [_grid04(rng, R2, C2)], 'T': rng.randint(2, 4),
+                              'memo': rng.randrange(3)})
+            calls[-1]['nb'] = 'M'
+            kind = 'sequence/different-shapes'
+        else:                # all recursive, the later call continues from a grid the earlier one produced or saw
+            calls = [{'nb': 'V', 'hist': [g], 'T': rng.randint(2, 4), 'memo': 2},
+                     {'nb': 'M', 'hist': [_grid04(rng, R, C), g], 'T': rng.randint(2, 4), 'memo': 2},
+                     {'nb': 'M', 'hist': [g], 'T': 4, 'memo': rng.randrange(3)}]
+            kind = 'sequence/recursive-chain'
+        yield {'kind': kind, 'op': 'sequence', 'calls': calls}
 
 
 def _start(c):
@@ -123,6 +168,15 @@ def run_impl(c):
         return list(call_impl(f))
     if op == 'roll':
         return np.roll(np.array(c['g']), (c['da'], c['db']), axis=(0, 1)).tolist()
+    if op == 'sequence':
+        rule = cpl.game_of_life_rule          # the same function object for every call of the sequence
+        out = []
+        for call in c['calls']:
+            h = np.array(call['hist'])
+            nb = 'Moore' if call['nb'] == 'M' else 'von Neumann'
+            out.append(list(call_impl(lambda: cpl.evolve2d(h, timesteps=call['T'], apply_rule=rule, neighbourhood=nb,
+                                                           memoize=MEMO[call['memo']]).tolist())))
+        return out
     hist = np.array(c['hist'] if op == 'evolve' else [_start(c)])
     r = call_impl(lambda: cpl.evolve2d(hist, timesteps=c['T'], apply_rule=cpl.game_of_life_rule,
                                        memoize=MEMO[c['memo']]).tolist())
@@ -136,6 +190,11 @@ def to_coq(c, obs):
                                      cres(obs, lambda v: copt(v, cz)))
     if op == 'roll':
         return '(CRoll %s %s %s %s)' % (cgrid(c['g']), cz(c['da']), cz(c['db']), cgrid(obs))
+    if op == 'sequence':
+        return '(CSequence [%s])' % '; '.join(
+            'SeqCall %s %s %s %s %s' % ('Moore' if call['nb'] == 'M' else 'VonNeumann', chist(call['hist']),
+                                        cnat(call['T']), cnat(call['memo']), cres(o, chist))
+            for call, o in zip(c['calls'], obs))
     if op == 'evolve':
         return '(CEvolve %s %s %s %s)' % (chist(c['hist']), cnat(c['T']), cnat(c['memo']), cres(obs, chist))
     pat = {'glider': 'PGlider', 'block': 'PBlock', 'blinker': 'PBlinker'}[c['pat']]
@@ -148,6 +207,8 @@ def nontrivial(c, obs):
     op = c['op']
     if op == 'roll':
         return c['da'] != 0 or c['db'] != 0
+    if op == 'sequence':
+        return all(o[0] == 'ok' for o in obs) and any(call['nb'] == 'V' for call in c['calls'])
     if obs[0] != 'ok':
         return False
     if op == 'rule':
@@ -167,6 +228,19 @@ def oracle(c, obs):
     """The property itself, evaluated on the implementation's answer."""
     op = c['op']
     if op == 'roll':
+        return None
+    if op == 'sequence':
+        for k, (call, o) in enumerate(zip(c['calls'], obs)):
+            if call['nb'] != 'M':
+                continue
+            if o[0] != 'ok':
+                return 'call %d of the sequence (Moore) raised %s' % (k, o[1])
+            want = [np.array(h) for h in call['hist']]
+            for _ in range(call['T'] - 1):
+                want.append(_life(want[-1]))
+            if o[1] != [w.tolist() for w in want]:
+                return ('call %d of the sequence (Moore, memoize=%r) differs from the np.roll-based Life update after '
+                        'the earlier calls with the same rule object' % (k, MEMO[call['memo']]))
         return None
     if obs[0] != 'ok':
         return 'the call raised %s' % obs[1]
@@ -201,6 +275,10 @@ def oracle(c, obs):
 
 def shrink(c):
     op = c['op']
+    if op == 'sequence':
+        # not shrunk: whether a shorter sequence still fails is decided in THIS process, whose library state
+        # already went through all earlier cases; a replay must reproduce in a fresh process, so keep the case
+        return
     if op in ('evolve', 'pattern'):
         if c['memo'] != 0:
             yield dict(c, memo=0)
